@@ -249,7 +249,11 @@ def rule_env(ctx):
             sig = bool(kinds) and kinds <= {"Signal", "Component", "AnonymousComponent"}
             ctx.check(R, "Statement::propagate_degrees/Declaration/signals-and-components-linear", lin and sig, "seed %s in arm %s" % (val, arm_txt), site(SI, s))
         elif any("Substitution" in render(a[2]) for a in arms):
-            ctx.ok(R, "Statement::propagate_degrees/Substitution/publishes-rhs-degree", "set_degree(%s) in %s" % (render(s["args"]), arm_txt), site(SI, s))
+            var = render(strip(s["args"][0]))
+            local_guard = any(c[0] == "if" and c[2] and render(c[1]).replace(" ", "") == "env.is_local(%s)" % var for c in conds)
+            from_rhs = any(c[0] == "iflet" and c[3] and render(c[2]).replace(" ", "") == "rhe.degree()" for c in conds)
+            ctx.check(R, "Statement::propagate_degrees/Substitution/only-locals-take-the-rhs-degree", local_guard, "the assigned name's degree is replaced by the right-hand side's only for local variables (signals and components keep their Linear seed whatever is assigned to them); guards: %s" % arm_txt, site(SI, s))
+            ctx.check(R, "Statement::propagate_degrees/Substitution/publishes-rhs-degree", from_rhs and render(strip(s["args"][1])) == "range", "set_degree(%s) in %s" % (render(s["args"]), arm_txt), site(SI, s))
         else:
             ctx.bad(R, "Statement::propagate_degrees/unexpected-seed", "set_degree(%s) in %s" % (render(s["args"]), arm_txt), site(SI, s))
     # who may call DegreeEnvironment::set_degree (syntax level: receiver is an env, not degree_knowledge_mut())
